@@ -152,7 +152,7 @@ pub fn run(rep: &Report) -> i32 {
                 rep.nontrivial(1);
             }
             drive::DUMMY.with(|env| pin_run(rep, "C09", &tag, p, &vals, env, i % 4 == 0 || w <= 4));
-            if i % 211 == 7 {
+            if i % 211 == 7 || rep.no_sample_yet() {
                 rep.sample(3, || json!({"case": tag, "program": texts.iter().find(|t| t.0 == w).map(|t| t.1.clone())}));
             }
         });
